@@ -177,6 +177,10 @@ func (w *World) userControl(ui int, op *UserOp) {
 				if op.K == "duplistener-bad" {
 					return wantErr(err, errorx.ErrInvalidNetworkAddress)
 				}
+				if op.K == "dup" && w.multi() {
+					// Dup is documented as unsupported with more than one listener
+					return wantErr(err, errorx.ErrUnsupportedOp)
+				}
 				if err != nil || fd < 0 {
 					return "want a descriptor"
 				}
